@@ -401,7 +401,7 @@ class RecipeNS:
         return out
 
 
-OTHER_LANGS = ["python", "", "Recipe", "recipes", "new-recipe2", "text recipe", "recipe-", "RECIPE", "c++"]
+OTHER_LANGS = ["python", "python", "", "Recipe", "recipes", "new-recipe2", "text recipe", "recipe-", "RECIPE", "c++", "python"]
 
 
 def gen_code(c: Ctx, ns_box: List[RecipeNS], depth: int = 0, after_list: bool = False) -> Tuple[List[str], str]:
